@@ -213,3 +213,38 @@ fn c11_gap_nonneg_n2_p1() {
     kani::cover!(gap > 0.0);
     kani::cover!(gap == 0.0 && w != 0);
 }
+
+// -------------------------------------------------------------------------------------------------
+// Multi-task variant: the whole coefficient ROW of a feature whose block x_j'Y lies in the closed ball of radius
+// n*l1_ratio*penalty is exactly zero (group sparsity of the l21 penalty); otherwise each entry keeps the sign of its x_j'y_k.
+// @unit class=bounded tier=thorough mem=heavy bound="n=2,p=1,tasks=2,max_steps=2, x,Y integer-valued in [-3,3], penalty integer 0..20, l1_ratio=1; sqrt uninterpreted" timeout=2400 fns=linfa_elasticnet::algorithm::block_coordinate_descent,linfa_elasticnet::algorithm::block_soft_thresholding,linfa_elasticnet::algorithm::duality_gap_mtl
+#[kani::proof]
+#[kani::unwind(7)]
+#[kani::stub(alloc::fmt::format, fmt_stub)]
+#[kani::stub(f32::sqrt, ghost_sqrt32)]
+fn c11_bcd_n2_p1_t2() {
+    let x = [c11_si(-3, 3), c11_si(-3, 3)];
+    let y = [[c11_si(-3, 3), c11_si(-3, 3)], [c11_si(-3, 3), c11_si(-3, 3)]];
+    let pen: u8 = kani::any();
+    kani::assume(pen <= 20);
+    let xm = Array2::from_shape_vec((2, 1), vec![x[0] as f32, x[1] as f32]).unwrap();
+    let ym = Array2::from_shape_vec((2, 2), vec![y[0][0] as f32, y[0][1] as f32, y[1][0] as f32, y[1][1] as f32]).unwrap();
+    let (w, gap, steps) = block_coordinate_descent(xm.view(), ym.view(), 1e-4f32, 2, 1.0f32, pen as f32);
+    let t = [x[0] as i32 * y[0][0] as i32 + x[1] as i32 * y[1][0] as i32, x[0] as i32 * y[0][1] as i32 + x[1] as i32 * y[1][1] as i32];
+    let norm = ghost_sqrt32((t[0] * t[0] + t[1] * t[1]) as f32);
+    let thr = (2 * pen as i32) as f32;
+    assert!(w.dim() == (1, 2));
+    assert!(steps >= 1 && steps <= 2);
+    let _ = gap;
+    if (x[0] == 0 && x[1] == 0) || norm <= thr {
+        assert!(w[(0, 0)] == 0.0 && w[(0, 1)] == 0.0);
+    } else {
+        for k in 0..2 {
+            assert!(!w[(0, k)].is_nan());
+            if t[k] != 0 && norm > 2.0 * thr { assert!(w[(0, k)] != 0.0 && (w[(0, k)] > 0.0) == (t[k] > 0)); }
+        }
+    }
+    kani::cover!(norm <= thr && t[0] != 0 && t[1] != 0);
+    kani::cover!(norm > 2.0 * thr && thr > 0.0 && t[0] > 0 && t[1] < 0);
+    kani::cover!(t[0] == 0 && t[1] == 0 && pen == 0 && x[0] != 0);
+}
